@@ -276,7 +276,7 @@ func c10Run(c *Ctx) {
 	}
 	// 4. random literals: midpoints, subnormals, overflow threshold, long tails
 	r := c.Rand("literals")
-	n := c.N(40000, 1000000)
+	n := c.N(40000, 6000000)
 	for k := 0; k < n; k++ {
 		var lit string
 		kind := ""
@@ -343,7 +343,7 @@ func c10Run(c *Ctx) {
 	}
 	// 5. read-back through the real binary: দেখাও <literal>;
 	r = c.Rand("cli")
-	n = c.N(1500, 30000)
+	n = c.N(1500, 60000)
 	for k := 0; k < n; k++ {
 		lit := randDigits(r, 1+r.Intn(18))
 		if r.Bool() {
